@@ -355,41 +355,51 @@ func c16Sequential(c *vf.Ctx) {
 			if nClose == 0 {
 				continue
 			}
-			c.Cur(sub, i, strings.Join(seq, ","))
-			wit := func() any { return map[string]any{"sequence": seq} }
-			rc, err := announce.NewReceiver(nil, "")
-			if err != nil {
-				c.Fail(sub, i, "harness-receiver", err.Error(), nil)
-				continue
-			}
-			closed := false
-			okSoFar := true
-			for k, op := range seq {
-				res := c16Do(rc, op, k)
-				if !c16CheckResult(c, sub, i, seq, k, res, closed, wit) {
-					okSoFar = false
-					break
+			for _, filter := range []string{"none", "rejects-the-announcing-peer"} {
+				c.Cur(sub, i, strings.Join(seq, ",")+" allow-filter="+filter)
+				filter := filter
+				wit := func() any { return map[string]any{"sequence": seq, "allow_filter": filter} }
+				var ropts []announce.Option
+				if filter != "none" {
+					ropts = append(ropts, announce.WithAllowPeer(func(peer.ID) bool { return false }))
 				}
-				if op == "Close" {
-					closed = true
+				rc, err := announce.NewReceiver(nil, "", ropts...)
+				if err != nil {
+					c.Fail(sub, i, "harness-receiver", err.Error(), nil)
+					continue
 				}
-			}
-			if okSoFar {
-				// the receiver must still answer every kind of call after the sequence
-				for k, op := range []string{"Uncache", "Direct", "Next", "Close"} {
-					res := c16Do(rc, op, 100+k)
-					if !c16CheckResult(c, sub, i, append(append([]string(nil), seq...), "then:"+op), len(seq)+k, res, closed, wit) {
+				closed := false
+				okSoFar := true
+				for k, op := range seq {
+					res := c16Do(rc, op, k)
+					if !c16CheckResult(c, sub, i, seq, k, res, closed, wit) {
+						okSoFar = false
 						break
 					}
+					if op == "Close" {
+						closed = true
+					}
 				}
-			}
-			c.Eval(1)
-			c.Distinct(sub, strings.Join(seq, ","))
-			if nClose >= 2 {
-				c.Inc("sequences_with_repeated_close")
-			}
-			if c.WantSample(sub) && nClose >= 2 {
-				c.Sample(sub, wit())
+				if okSoFar {
+					// the receiver must still answer every kind of call after the sequence
+					for k, op := range []string{"Uncache", "Direct", "Next", "Close"} {
+						res := c16Do(rc, op, 100+k)
+						if !c16CheckResult(c, sub, i, append(append([]string(nil), seq...), "then:"+op), len(seq)+k, res, closed, wit) {
+							break
+						}
+					}
+				}
+				c.Eval(1)
+				c.Distinct(sub, strings.Join(seq, ","), filter)
+				if nClose >= 2 {
+					c.Inc("sequences_with_repeated_close")
+				}
+				if filter != "none" {
+					c.Inc("sequences_with_rejecting_allow_filter")
+				}
+				if c.WantSample(sub) && nClose >= 2 {
+					c.Sample(sub, wit())
+				}
 			}
 		}
 	}
